@@ -31,6 +31,10 @@ def run(P, R, L):
     R.clause("PAIR-2", "followers popped by the leader receive the group's result before they are notified, and the leader's "
              "own return value derives from the same result")
     K.pair2_group_result(P, R, L)
+    R.clause("PAIR-16", "every follower popped by the leader is marked complete (constant true) before it is notified, whatever the group's result")
+    K.pair16_followers_always_completed(P, R, L)
+    R.clause("ORD-2", "a failed WAL append prevents the memtable insert: a write reported as failed is never visible")
+    K.ord2_write_ahead(P, R, L, rule="ORD-2")
     R.clause("GRD-5", "table files referenced by any version that is still linked (a suspended reader's captured version) are never queued for deletion")
     from .c11 import grd5, pair1
     grd5(P, R, L)
